@@ -47,6 +47,7 @@ def make_scenarios(ctx, count):
         s.add("OPT sleep=0")
         reqs = []      # (kind, type, offset, seq) aligned with inputs
         quick = set()  # indices of requests sent in the quick-discovery service
+        repeats = set()
 
         def feed(fr, info):
             s.frame(0, fr)
@@ -101,6 +102,21 @@ def make_scenarios(ctx, count):
                  ("call", typ, off, q))
             if rng.random() < 0.1:
                 feed(G.f_probe(rng, net), ("other",))
+            if q != 0 and rng.random() < 0.12:
+                # the same request once more - as a plain retransmission (same number), under a fresh number, or under the number
+                # that a Query or an Emit of the mapper has used in between: every response carries *its* request's number
+                how = rng.choice(["same", "fresh", "after-query", "after-emit", "after-emit"])
+                q2 = q
+                if how == "fresh":
+                    q2 = nseq()
+                elif how == "after-query":
+                    q2 = nseq()
+                    feed(G.f_query(rng, net, m, seq=q2, bridged=bridged), ("other",))
+                elif how.startswith("after-emit"):
+                    q2 = nseq()
+                    feed(G.f_emit(rng, net, m, seq=q2, n=1, bridged=bridged)[0], ("other",))
+                feed(W.qlt(net.own, net.mappers[m], q2, typ, off, eth_src=net.bridges[m] if bridged else None), ("call", typ, off, q2))
+                repeats.add(how)
         globs = [glob]
         if rng.random() < 0.6:
             # next session: Reset, (usually) a different icon on the platform, Discover, reassemble again
@@ -148,7 +164,7 @@ def make_scenarios(ctx, count):
                         if len(d) - off <= ln or off + ln > 0xFFFF:
                             break
                         off += ln
-        s.meta = dict(reqs=reqs, glob=glob, mtu=mtu, own=cfg["mac"], globs=globs, switch_at=switch_at, mtu_at=mtu_at, mtu2=mtu2, quick=quick)
+        s.meta = dict(reqs=reqs, glob=glob, mtu=mtu, own=cfg["mac"], globs=globs, switch_at=switch_at, mtu_at=mtu_at, mtu2=mtu2, quick=quick, repeats=sorted(repeats))
         scns.append(s)
     return scns
 
@@ -265,6 +281,8 @@ def monitor(scn, sobj, rep, sf, ck):
             rep.violation("C08:reassembly", "scenario %s: mapper loop over type %#x (size %d, mtu %d) reassembled %d bytes in %d "
                           "chunks; equal=%s more-flags=%s" % (scn.sid, typ, len(d), mtu, len(got), len(chunks), got == d,
                                                               [c[2] for c in chunks]), replay=sobj.text())
+    for how in sobj.meta.get("repeats", ()):
+        rep.count("request_repeated:" + how)
     rep.evaluations += calls
     rep.count("calls_judged", calls)
     for t in types:
@@ -300,6 +318,8 @@ def run(ctx):
     rep.need("reassemblies", c.get("reassemblies", 0), 1200)
     rep.need("reassemblies_3plus_chunks", c.get("reassemblies_3plus_chunks", 0), 50)
     rep.need("types:unknown", c.get("types:unknown", 0), 100)
+    for how in ("same", "fresh", "after-query", "after-emit"):
+        rep.need("request_repeated:" + how, c.get("request_repeated:" + how, 0), 50)
     rep.need("seq_zero_requests:quick-discovery", c.get("seq_zero_requests:quick-discovery", 0), 100)
     rep.need("seq_zero_requests:topology-discovery", c.get("seq_zero_requests:topology-discovery", 0), 100)
     rep.need("friendly-name-ends-in-a-zero-word", c.get("content:friendly-name-ends-in-a-zero-word", 0), 30)
